@@ -543,3 +543,33 @@ BENIGN = [
     ("b-c16-inplace-fresh-sum", ["C16", "C13"], [(AR, "        outputs = scale * inputs + shift\n        logabsdet = torchutils.sum_except_batch(log_scale, num_batch_dims=1)", "        outputs = scale * inputs\n        outputs += shift\n        logabsdet = torchutils.sum_except_batch(log_scale, num_batch_dims=1)")]),
     ("b-c14-guard-order", ["C14"], [(NORM, "if self.training and not self.initialized:", "if not self.initialized and self.training:")]),
 ]
+
+# ---- round 3: rules added after the third seed round ----
+MUTANTS += [
+    ("c12-umnn-cond-batch-inner", ["C12"], [(CPL, "            z, jac = self.transformer(inputs.permute(0, 2, 3, 1).reshape(-1, inputs.shape[1]), transform_params.permute(0, 2, 3, 1).reshape(-1, 1, transform_params.shape[1]))\n            log_det_jac = jac.log().reshape(B, -1).sum(1)\n            return z.reshape(B, H, W, C)", "            z, jac = self.transformer(inputs.permute(0, 2, 3, 1).reshape(-1, inputs.shape[1]), transform_params.permute(2, 3, 0, 1).reshape(-1, 1, transform_params.shape[1]))\n            log_det_jac = jac.log().reshape(B, -1).sum(1)\n            return z.reshape(B, H, W, C)")], "BM-ROWS"),
+    ("c12-umnn-logdet-reshape", ["C12"], [(CPL, "            log_det_jac = jac.log().reshape(B, -1).sum(1)\n            return z.reshape(B, H, W, C).permute(0, 3, 1, 2), log_det_jac", "            log_det_jac = jac.log().reshape(-1, B).sum(0)\n            return z.reshape(B, H, W, C).permute(0, 3, 1, 2), log_det_jac")], "BM-ROWS"),
+    ("c12-conv-logdet-axes", ["C12"], [(T + "conv.py", "        logabsdet = logabsdet.reshape(b, h, w)", "        logabsdet = logabsdet.reshape(h, w, b).permute(2, 0, 1)")], "BM-ROWS"),
+    ("c12-actnorm-eval-init", ["C12"], [(NORM, "        if self.training and not self.initialized:\n            self._initialize(inputs)", "        if not self.initialized:\n            self._initialize(inputs)")], "BM-REDUCE"),
+    ("c12-bn-eval-updates-stats", ["C12"], [(NORM, "            mean, var = self.running_mean, self.running_var", "            self.running_mean.copy_(inputs.mean(0))\n            mean, var = self.running_mean, self.running_var")], "BM-REDUCE"),
+    ("c10-invalidate-public-load-only", ["C10"], [(LIN, "    def _load_from_state_dict(self, *args, **kwargs):\n        # Parameters are about to be overwritten: cached tensors would be stale.\n        self.cache.invalidate()\n        return super()._load_from_state_dict(*args, **kwargs)", "    def load_state_dict(self, state_dict, *args, **kwargs):\n        self.cache.invalidate()\n        return super().load_state_dict(state_dict, *args, **kwargs)")], "CACHE-STALE"),
+    ("c14-load-forces-flag", ["C14"], [(NORM, "    @property\n    def scale(self):\n        return torch.exp(self.log_scale)", "    def _load_from_state_dict(self, state_dict, prefix, *args, **kwargs):\n        state_dict[prefix + \"initialized\"] = torch.tensor(True)\n        super()._load_from_state_dict(state_dict, prefix, *args, **kwargs)\n\n    @property\n    def scale(self):\n        return torch.exp(self.log_scale)")], "NORM-LOAD"),
+    ("c14-load-drops-flag", ["C14"], [(NORM, "    @property\n    def scale(self):\n        return torch.exp(self.log_scale)", "    def _load_from_state_dict(self, state_dict, prefix, *args, **kwargs):\n        state_dict.pop(prefix + \"initialized\", None)\n        kwargs = dict(kwargs)\n        super()._load_from_state_dict(state_dict, prefix, *args, **kwargs)\n\n    @property\n    def scale(self):\n        return torch.exp(self.log_scale)")], "NORM-LOAD"),
+    ("c14-load-resets-flag-after", ["C14"], [(NORM, "    @property\n    def scale(self):\n        return torch.exp(self.log_scale)", "    def _load_from_state_dict(self, state_dict, prefix, *args, **kwargs):\n        super()._load_from_state_dict(state_dict, prefix, *args, **kwargs)\n        self.initialized.fill_(False)\n\n    @property\n    def scale(self):\n        return torch.exp(self.log_scale)")], "NORM-LOAD"),
+    ("c14-bn-load-no-delegate", ["C14"], [(NORM, "    @property\n    def weight(self):", "    def _load_from_state_dict(self, state_dict, prefix, *args, **kwargs):\n        pass\n\n    @property\n    def weight(self):")], "NORM-LOAD"),
+    ("c16-leaky-where-log", ["C16"], [(NL, "        outputs = F.leaky_relu(inputs, negative_slope=self.negative_slope)", "        outputs = torch.where(inputs < 0, inputs * self.negative_slope, torch.exp(torch.log(inputs)))")], "GRAD-WHERE"),
+    ("c16-where-division", ["C16"], [(NL, "        outputs = (1 / np.pi) * torch.atan(inputs) + 0.5", "        outputs = torch.where(inputs.abs() > 1, 0.5 * torch.sign(inputs) - (1 / np.pi) * torch.atan(1 / inputs) + 0.5, (1 / np.pi) * torch.atan(inputs) + 0.5)")], "GRAD-WHERE"),
+    ("c18-batch-size-unchecked", ["C18"], [("nflows/distributions/base.py", "            if not check.is_positive_int(batch_size):\n                raise TypeError(\"Batch size must be a positive integer.\")\n", "")], "ARG-CHECK"),
+    ("c18-num-samples-valueerror", ["C18"], [("nflows/distributions/base.py", "        if not check.is_positive_int(num_samples):\n            raise TypeError(\"Number of samples must be a positive integer.\")", "        if not check.is_positive_int(num_samples):\n            raise ValueError(\"Number of samples must be a positive integer.\")")], "ARG-CHECK"),
+    ("c18-batch-size-checked-late", ["C18"], [("nflows/distributions/base.py", "            if not check.is_positive_int(batch_size):\n                raise TypeError(\"Batch size must be a positive integer.\")\n", "            first = self._sample(1, context)\n            if not check.is_positive_int(batch_size):\n                raise TypeError(\"Batch size must be a positive integer.\")\n")], "ARG-CHECK"),
+]
+
+BENIGN += [
+    ("b-c12-umnn-flatten-helper", ["C12", "C01", "C02", "C07"], [(CPL, "            z, jac = self.transformer(inputs.permute(0, 2, 3, 1).reshape(-1, inputs.shape[1]), transform_params.permute(0, 2, 3, 1).reshape(-1, 1, transform_params.shape[1]))\n            log_det_jac = jac.log().reshape(B, -1).sum(1)\n            return z.reshape(B, H, W, C)", "            rows = inputs.permute(0, 2, 3, 1).reshape(B * H * W, C)\n            cond = transform_params.permute(0, 2, 3, 1).reshape(B * H * W, 1, -1)\n            z, jac = self.transformer(rows, cond)\n            log_det_jac = jac.log().reshape(B, -1).sum(1)\n            return z.reshape(B, H, W, C)")]),
+    ("b-c12-conv-view-spelling", ["C12", "C01"], [(T + "conv.py", "        inputs = inputs.permute(0, 2, 3, 1).reshape(b * h * w, c)", "        inputs = inputs.permute(0, 2, 3, 1).reshape(-1, inputs.shape[1])"), (T + "conv.py", "        logabsdet = logabsdet.reshape(b, h, w)", "        logabsdet = logabsdet.reshape(b, h * w)")]),
+    ("b-c10-load-both-hooks", ["C10"], [(LIN, "    def use_cache(self, mode=True):", "    def load_state_dict(self, state_dict, *args, **kwargs):\n        self.cache.invalidate()\n        return super().load_state_dict(state_dict, *args, **kwargs)\n\n    def use_cache(self, mode=True):")]),
+    ("b-c14-load-legacy-default", ["C14", "C15"], [(NORM, "    @property\n    def scale(self):\n        return torch.exp(self.log_scale)", "    def _load_from_state_dict(self, state_dict, prefix, *args, **kwargs):\n        key = prefix + \"initialized\"\n        if key not in state_dict:\n            state_dict[key] = torch.tensor(True, dtype=torch.bool)\n        super()._load_from_state_dict(state_dict, prefix, *args, **kwargs)\n\n    @property\n    def scale(self):\n        return torch.exp(self.log_scale)")]),
+    ("b-c16-where-safe", ["C16", "C01", "C02"], [(NL, "        outputs = F.leaky_relu(inputs, negative_slope=self.negative_slope)", "        outputs = torch.where(inputs < 0, inputs * self.negative_slope, inputs)")]),
+    ("b-c18-sample-guards-in-helper", ["C18"], [("nflows/distributions/base.py", "        if not check.is_positive_int(num_samples):\n            raise TypeError(\"Number of samples must be a positive integer.\")", "        self._check_count(num_samples, \"Number of samples\")"), ("nflows/distributions/base.py", "    def _sample(self, num_samples, context):", "    @staticmethod\n    def _check_count(value, what):\n        if not check.is_positive_int(value):\n            raise TypeError(\"{} must be a positive integer.\".format(what))\n\n    def _sample(self, num_samples, context):")]),
+    ("b-c08-inverse-generator-method", ["C08"], [(TB, "        funcs = (transform.inverse for transform in self._transforms[::-1])\n        return self._cascade(inputs, funcs, context)", "        return self._cascade(inputs, self._inverse_funcs(), context)\n\n    def _inverse_funcs(self):\n        for transform in self._transforms[::-1]:\n            yield transform.inverse")]),
+    ("b-c01-for-break-else", ["C01", "C02", "C09", "C13", "C16", "C19"], [(CPL, "        if hasattr(self.transform_net, \"hidden_features\"):\n            unnormalized_widths /= np.sqrt(self.transform_net.hidden_features)\n            unnormalized_heights /= np.sqrt(self.transform_net.hidden_features)\n        elif hasattr(self.transform_net, \"hidden_channels\"):\n            unnormalized_widths /= np.sqrt(self.transform_net.hidden_channels)\n            unnormalized_heights /= np.sqrt(self.transform_net.hidden_channels)\n        else:\n            warnings.warn(\n                \"Inputs to the softmax are not scaled down: initialization might be bad.\"\n            )\n\n        if self.tails is None:\n            spline_fn = splines.rational_quadratic_spline", "        for size_attribute in (\"hidden_features\", \"hidden_channels\"):\n            if hasattr(self.transform_net, size_attribute):\n                hidden_size = getattr(self.transform_net, size_attribute)\n                unnormalized_widths /= np.sqrt(hidden_size)\n                unnormalized_heights /= np.sqrt(hidden_size)\n                break\n        else:\n            warnings.warn(\n                \"Inputs to the softmax are not scaled down: initialization might be bad.\"\n            )\n\n        if self.tails is None:\n            spline_fn = splines.rational_quadratic_spline")]),
+]
